@@ -9,7 +9,7 @@ M: TLC on spec/L3_command/TaxFindMC.tla (TaxFind.tla on Tax.tla of C14): every l
 R: every exported case (quick: a seeded sample of the taxonomies) on the real obifind / obiannotate binaries,
    run on an NCBI dump of the taxonomy.
 T: random taxonomies (up to hundreds of nodes, all shapes of C14's generator, homonyms, synonyms) and random
-   command lines; spec/trace/TaxFindTrace.tla re-evaluates the specification on every run.
+   command lines, obiannotate --add-lca-in SLOT --lca-error e on weighted bags of taxids; spec/trace/TaxFindTrace.tla re-evaluates the specification on every run.
 A disagreement that the specification's as-written variant explains exactly is reported as X06.known.<name>
 (extra/findings.json); anything else is a violation.
 """
@@ -20,7 +20,8 @@ import vlib
 
 KNOWN = {"known:first_alt_name_lost": "X06.known.first_alt_name_lost",
          "known:rank_list_ignored": "X06.known.rank_list_ignored",
-         "known:scientific_name_key": "X06.known.scientific_name_key"}
+         "known:scientific_name_key": "X06.known.scientific_name_key",
+         "known:lca_synonym_weight_lost": "X06.known.lca_synonym_weight_lost"}
 
 
 def load_own_findings(ctx):
@@ -62,6 +63,13 @@ def validate_trace(ctx, trace, timeout):
                 r["why"], {k: v for k, v in ev["q"].items() if k != "pats"}, ev["args"], ev["rc"], len(ev["out"]),
                 ev["out"][:6], ev["err"][:300], small)
             case = {"kind": "trace", "tax": tax, "find": ev}
+        elif ev["e"] == "lca":
+            aid = KNOWN.get(r["why"], "X06.trace.lca." + r["why"].replace(" ", "_"))
+            detail = "TaxFindTrace: %s; obiannotate --add-lca-in %s --lca-error %.3f on %d records -> exit %d %s; records %s -> %s on %s" % (
+                r["why"], ev["slot"], ev["E"] / 1000.0, len(ev["recs"]), ev["rc"], ev["err"][:300],
+                [x["bag"] for x in ev["recs"]][:8],
+                [dict(zip(o["ik"] + o["sk"] + o["fk"], o["iv"] + o["sv"] + o["fv"])) for o in ev["obs"]][:8], small)
+            case = {"kind": "trace", "tax": tax, "lca": ev}
         else:
             aid = KNOWN.get(r["why"], "X06.trace.annot." + r["why"].replace(" ", "_"))
             detail = "TaxFindTrace: %s; obiannotate %s on %d records -> exit %d %s on %s" % (
@@ -148,6 +156,7 @@ def main(ctx):
     ntrees = 400 if thorough else 80
     ctx.harness(["record", "X06", "--out", trace, "--n", ntrees, "--opt", "bindir=" + bindir,
                  "--opt", "queries=%d" % (16 if thorough else 10), "--opt", "annots=%d" % (4 if thorough else 3),
+                 "--opt", "lcas=%d" % (6 if thorough else 4), "--opt", "synonyms=1",
                  "--opt", "maxn=%d" % (600 if thorough else 240)], timeout=3000)
     events = validate_trace(ctx, trace, 3000)
     kinds = {}
@@ -164,6 +173,8 @@ def main(ctx):
                      "long listing", "refused"):
             ctx.expect_vacuity("trace runs of class " + need, kinds.get(need, 0))
         ctx.expect_vacuity("trace obiannotate runs", sum(v for k, v in kinds.items() if k.startswith("annot")))
+        for need in ("lca.exact", "lca.tolerant"):
+            ctx.expect_vacuity("trace runs of class " + need, kinds.get(need, 0))
     sizes = [len(e["parent"]) for e in events if e["e"] == "load"]
     ctx.extra["trace_taxonomies"] = len(sizes)
     ctx.extra["trace_max_nodes"] = max(sizes)
@@ -174,7 +185,7 @@ def main(ctx):
         "taxids of the nodes are 1..n (the root is any of them); merged ids and unknown ids lie outside; every taxon has a scientific name",
         "names and ranks are plain ASCII labels without '|' and without regular-expression metacharacters",
         "patterns are literals with optional ^ and $ anchors and '.' wildcards: the rest of the regular-expression syntax is not given a meaning",
-        "--lca-error (tolerant LCA) is not decided; --add-lca-in with zero tolerance and --with-taxon-at-rank values are also decided by C14",
+        "--lca-error: the answer must be acceptable (clade of the exact LCA, at most e of the weight outside, error reported within bounds); WHICH acceptable taxon is answered is not decided",
     ]
     ctx.extra["exhaustive"] = thorough
     return ctx.finish(rule="one case per (taxonomy, command line); quick replays every command line of a seeded sample of the "
